@@ -48,6 +48,17 @@ def whileFuel {σ : Type} (fuel : Nat) (c : σ → Option Bool) (b : σ → Opti
       | none => none
       | some s' => whileFuel n c b s'
 
+/-- `for _, v := range xs { … }` whose body may return: `some (some r)` = the loop returned r, `some none` = it ran to
+    the end, `none` = a panic inside the body -/
+def forRange {α ρ : Type} (l : List α) (f : α → Option (Option ρ)) : Option (Option ρ) :=
+  match l with
+  | [] => some none
+  | x :: xs =>
+    match f x with
+    | none => none
+    | some (some r) => some (some r)
+    | some none => forRange xs f
+
 def fuel : Nat := 1024
 
 /-- `int(f)` for a float `f` translated as an exact rational: truncation toward zero -/
